@@ -46,16 +46,20 @@ def gen_args(rng, count, dist):
     raise ValueError(dist)
 
 
-def point(name, count, dist, env_kb, stack, opts=(), big=None, mode="-0", env_tiny=0, cmd_path_len=0):
+def point(name, count, dist, env_kb, stack, opts=(), big=None, mode="-0", env_tiny=0, cmd_path_len=0, words_per_line=None):
     """env_kb: environment padding made of few large variables; env_tiny: number of additional tiny variables (each costs the
     kernel a pointer as well as its bytes)."""
     return {"name": name, "count": count, "dist": dist, "env_kb": env_kb, "stack": stack, "opts": list(opts), "big": big, "mode": mode,
-            "env_tiny": env_tiny, "cmd_path_len": cmd_path_len}
+            "env_tiny": env_tiny, "cmd_path_len": cmd_path_len, "words_per_line": words_per_line}
 
 
 def grid(ctx, rng):
     q = [
         point("400k x 1 byte, 8MiB stack", 400000, "1", 1, 8 * MIB),
+        point("300k x 2 bytes, 5000 words per line, -L 50", 300000, "2", 1, 8 * MIB, opts=["-L", "50"], mode="words", words_per_line=5000),
+        point("one line of 400k one-byte words, -L 1", 400000, "1", 1, 8 * MIB, opts=["-L", "1"], mode="words", words_per_line=400000),
+        point("100k x 10 bytes, 100 words per line, --max-lines=3, 512KiB stack", 100000, "10", 1, 512 * KIB, opts=["--max-lines=3"], mode="words",
+              words_per_line=100),
         point("100k x 1 byte, 512KiB stack", 100000, "1", 1, 512 * KIB),
         point("100k x 10 bytes, env 60KB, 1MiB stack", 100000, "10", 60, 1 * MIB),
         point("1000 log-uniform, 8MiB", 1000, "loguniform", 1, 8 * MIB),
@@ -107,6 +111,13 @@ def grid(ctx, rng):
                 tiny = rng.choice([0, 0, 300, 4000, 20000])
                 t.append(point("%d x %s, env %dKB + %d tiny, stack %d %s" % (count, dist, env_kb, tiny, stack, " ".join(opts)), count, dist, env_kb, stack,
                                opts, env_tiny=tiny))
+    for stack in (512 * KIB, 2 * MIB, 8 * MIB, -1):
+        for dist in ("1", "10", "mixed"):
+            wpl = rng.choice([7, 1000, 50000])
+            L = rng.choice([1, 2, 40, 3000])
+            count = rng.choice([200000, 600000])
+            t.append(point("%d x %s, %d words per line, -L %d, stack %d" % (count, dist, wpl, L, stack), count, dist, 1, stack, opts=["-L", str(L)],
+                           mode="words", words_per_line=wpl, env_tiny=rng.choice([0, 2000])))
     for stack in (512 * KIB, 8 * MIB, -1):
         t.append(point("near-limit x 100 stack %d" % stack, 100, "nearlimit", 1, stack))
         t.append(point("one 131072 arg stack %d" % stack, 50, "10", 1, stack, big=(49, MAX_ARG_STRLEN)))
@@ -134,6 +145,11 @@ def run_point(job):
                 args[big_idx] = b"B" * big_len
         sep = b"\0" if p["mode"] == "-0" else b"\n"
         data = sep.join(args) + sep
+        if p.get("words_per_line"):
+            # default mode, several blank-separated words per input line (what -L counts)
+            w = p["words_per_line"]
+            data = b"".join(b" ".join(args[j:j + w]) + b"\n" for j in range(0, len(args), w))
+            st.inc("points_with_several_words_per_line")
         env = common.clean_env()
         left = p["env_kb"] * 1000
         i = 0
